@@ -14,6 +14,15 @@ namespace nmtools::view::fun
     >
     struct add
     {
+        static constexpr auto identity()
+        {
+            if constexpr (meta::is_num_v<res_t>) {
+                return static_cast<res_t>(0);
+            } else {
+                return 0;
+            }
+        }
+
         // NOTE: tried to disable but not successful
         // TODO: remove by unifying with primary template
         #if 0
@@ -49,6 +58,11 @@ namespace nmtools::view::fun
     >
     {
         using result_type = res_t;
+
+        static constexpr auto identity()
+        {
+            return static_cast<res_t>(0);
+        }
 
         template <typename T, typename U>
         constexpr auto operator()(const T& t, const U& u) const -> res_t
